@@ -1,19 +1,385 @@
-//! C11 (stub, to be filled in)
+//! C11 - fixed-capacity, allocation-free operation: overflow is an error, never a panic.
+//! Fault enumeration: for each sampled message the real `ArrayVec<u8, CAP>` formatter is run
+//! at EVERY capacity 0..=len+1 from the same device snapshot; a counting global allocator armed
+//! around `Node::run` (harness callbacks excluded) must read 0 in the alloc-free configuration.
+
+use crate::exec::World;
+use crate::gen::*;
+use crate::model::*;
+use crate::props::c13::{advance_shadow, HistGen};
+use crate::props::c15::fresh_shadow;
 use crate::props::*;
+use crate::rng::{mix, Rng};
 use crate::runner::{Finding, Prop, Tier};
 use crate::stats::Stats;
+use crate::tree::gen_tree;
 use crate::types::*;
 
 pub struct C11;
 
+const SETUP_CAP: usize = 256;
+
 impl Prop for C11 {
-    fn id(&self) -> &'static str { "C11" }
-    fn level(&self) -> &'static str { "exploration" }
-    fn rule(&self) -> &'static str { "" }
-    fn assumptions(&self) -> Vec<String> { vec![] }
-    fn runs(&self, _tier: Tier) -> u64 { 0 }
-    fn gen(&self, seed: u64, run: u64, _tier: Tier) -> Trace {
-        base_trace("C11", seed, run, "", Config { queue: QueueCfg::Vec, controllers: 1, tree: TreeDesc::default() })
+    fn id(&self) -> &'static str {
+        "C11"
     }
-    fn check(&self, _trace: &Trace, _stats: &mut Stats) -> Vec<Finding> { vec![] }
+    fn level(&self) -> &'static str {
+        "fault_enumeration"
+    }
+    fn rule(&self) -> &'static str {
+        "one run = one alloc-free instrument (ArrayVec<Error,N> queue, real mandated commands + non-allocating app handlers), 0-6 set-up messages (valid, failing, corrupted; all through ArrayVec<u8,256>, allocation counted) and one sampled message of 1-5 query/event units (app queries with headers/blocks/strings/numbers, SYST:ERR?/ALL?/COUNt?, *IDN?, *ESR?, STAT queries) that is executed once with Vec<u8> (reference R) and then with the real ArrayVec<u8,CAP> for EVERY CAP in 0..=|R|+1, each time from the same device snapshot. distinct_nontrivial = distinct (|R| class, CAP-|R| class, kind of the unit being written when exhaustion strikes) tuples"
+    }
+    fn assumptions(&self) -> Vec<String> {
+        vec![
+            "allocation is counted on the calling thread between entry and exit of Node::run, excluding the harness's own handler/logging code (which suspends the counter); application handlers do not allocate".into(),
+            "capacities are limited to the generated dispatch table (0..=200, 256, 512, 1024, 4096); reference responses longer than 198 bytes are not swept".into(),
+        ]
+    }
+    fn runs(&self, tier: Tier) -> u64 {
+        match tier {
+            Tier::Quick => 8_000,
+            Tier::Thorough => 250_000,
+            Tier::Tiny => 20,
+        }
+    }
+    fn required_probes(&self) -> Vec<String> {
+        let v: Vec<&str> = vec![
+            "exhaustion_inside_block_header",
+            "exhaustion_in_unit_separator",
+            "exhaustion_at_terminator",
+            "exhaustion_between_error_items",
+            "capacity_zero",
+            "exact_fit",
+            "alloc_counted_on_failing_message",
+            "alloc_counted_on_corrupted_message",
+        ];
+        v.into_iter().map(String::from).collect()
+    }
+
+    fn gen(&self, seed: u64, run: u64, _tier: Tier) -> Trace {
+        let mut rng = Rng::new(mix(seed, "C11", run));
+        let mut trng = Rng::new(mix(seed, "C11-tree", run / 64));
+        let tree = gen_tree(&mut trng, true, 2, 3, 1);
+        let cfg = Config {
+            queue: QueueCfg::Array {
+                cap: *rng.pick(&[1usize, 2, 3, 4, 8, 16]),
+            },
+            controllers: 1,
+            tree,
+        };
+        let mut t = base_trace("C11", seed, run, "sweep", cfg.clone());
+        let tc = TreeCtx::new(&cfg.tree);
+        let root = tc.root.clone();
+        let mut shadow = fresh_shadow(&cfg);
+        let nsetup = rng.usize_below(7);
+        let mut g = HistGen {
+            rng: &mut rng,
+            tc,
+            uniq: 0,
+            shadow: shadow.clone(),
+        };
+        for _ in 0..nsetup {
+            let mut corrupt = vec![];
+            let msg = match g.rng.below(4) {
+                0 => g.app_msg(3),
+                1 | 2 => {
+                    let mut m = g.app_msg(3);
+                    if m.units.is_empty() {
+                        continue;
+                    }
+                    let k = g.rng.usize_below(m.units.len());
+                    g.break_unit(&mut m, k);
+                    m
+                }
+                _ => {
+                    let m = g.app_msg(2);
+                    let bytes = crate::msg::render(&m);
+                    corrupt = gen_corruption(g.rng, &bytes, 1, None);
+                    m
+                }
+            };
+            if msg.units.is_empty() {
+                continue;
+            }
+            let s = SendStep {
+                ctl: 0,
+                fmt: FmtCfg::Array { cap: SETUP_CAP },
+                msg,
+                corrupt,
+            };
+            advance_shadow(&mut shadow, &root, &s);
+            t.steps.push(Step::Send(s));
+            t.steps.push(Step::Read { ctl: 0 });
+        }
+        // the swept message
+        let k = *g.rng.pick(&[1usize, 2, 3, 5]);
+        let mut units = Vec::new();
+        let mut level: Vec<usize> = Vec::new();
+        for i in 0..k {
+            let u = if g.rng.chance(1, 2) {
+                let c = *g.rng.pick(&[
+                    Contrib::SystErrAll,
+                    Contrib::SystErrNext,
+                    Contrib::SystErrCount,
+                    Contrib::Idn,
+                    Contrib::Esr,
+                    Contrib::StatReg(Reg::Oper, RegCmd::Ptr),
+                    Contrib::SystVersion,
+                    Contrib::Wai,
+                    Contrib::Stb,
+                ]);
+                g.c(c, c != Contrib::Wai, vec![], &level, i == 0)
+            } else {
+                match pick_sim_leaf(g.rng, &g.tc) {
+                    Some(l) => {
+                        let l = l.clone();
+                        let mut u = gen_app_unit(
+                            g.rng,
+                            &g.tc,
+                            &l,
+                            &level,
+                            i == 0,
+                            &mut g.uniq,
+                            &UnitOpts {
+                                max_params: 2,
+                                query_pct: 85,
+                                max_data: 4,
+                                ..Default::default()
+                            },
+                        );
+                        // keep blocks/strings short so that the whole response stays sweepable
+                        for d in u.plan.data.iter_mut() {
+                            match d {
+                                Datum::Arb(b) | Datum::Str(b) => b.0.truncate(12),
+                                _ => {}
+                            }
+                        }
+                        u
+                    }
+                    None => g.c(Contrib::Idn, true, vec![], &level, i == 0),
+                }
+            };
+            if let Some(l) = level_after(&g.tc, &level, i == 0, u.colon, &u.path) {
+                level = l;
+            }
+            units.push(u);
+        }
+        t.steps.push(Step::Send(SendStep {
+            ctl: 0,
+            fmt: FmtCfg::Vec,
+            msg: Msg {
+                units,
+                end: B::from(*g.rng.pick(&["", "\n", ";"])),
+            },
+            corrupt: vec![],
+        }));
+        t
+    }
+
+    fn check(&self, trace: &Trace, stats: &mut Stats) -> Vec<Finding> {
+        let mut out = Vec::new();
+        let mut world = match World::new(&trace.config) {
+            Some(w) => w,
+            None => return vec![Finding::new("harness.config", "unsupported_config", 0, "config")],
+        };
+        let alloc_free = matches!(trace.config.queue, QueueCfg::Array { .. });
+        let n = trace.steps.len();
+        if n == 0 {
+            return out;
+        }
+        // ---- set-up steps
+        for (i, step) in trace.steps[..n - 1].iter().enumerate() {
+            stats.bump("steps");
+            match step {
+                Step::Send(s) => {
+                    let o = world.exec_send(s);
+                    log_obs(stats, &o);
+                    if !universal(&o, i, &mut out) {
+                        return out;
+                    }
+                    if alloc_free && matches!(s.fmt, FmtCfg::Array { .. }) {
+                        if o.result.is_err() {
+                            stats.probe(if s.corrupt.is_empty() {
+                                "alloc_counted_on_failing_message"
+                            } else {
+                                "alloc_counted_on_corrupted_message"
+                            });
+                        }
+                        if o.allocs != 0 {
+                            out.push(Finding::new(
+                                "C11.no_allocation",
+                                if o.result.is_err() { "allocation_on_failing_message" } else { "allocation_on_successful_message" },
+                                i,
+                                format!("{} heap allocation(s) ({} bytes) while executing {} (result {:?})", o.allocs, o.alloc_bytes, describe_msg(s), o.result),
+                            ));
+                        }
+                    }
+                }
+                Step::Read { ctl } => world.exec_read(*ctl),
+                Step::Hw(op) => world.exec_hw(op),
+                Step::Tst { code } => world.exec_tst(*code),
+                Step::Q(_) => {}
+            }
+        }
+        // ---- the sweep
+        let i = n - 1;
+        let s = match &trace.steps[i] {
+            Step::Send(s) => s,
+            _ => return out,
+        };
+        world.exec_read(0);
+        let snapshot = world.dev.clone_state();
+        let before = world.adopt();
+        let pred = predict(&world.root, &before, s, Reading::Condition);
+        let reference = world.exec_send(s);
+        log_obs(stats, &reference);
+        if !universal(&reference, i, &mut out) {
+            return out;
+        }
+        if reference.result.is_err() {
+            stats.bump("reference_failed_skipped");
+            return out;
+        }
+        let r = reference.out.clone();
+        if r.len() > 198 {
+            stats.bump("reference_too_long_skipped");
+            return out;
+        }
+        // unit boundaries in R (for probes): cumulative end offsets of unit texts
+        let mut bounds: Vec<(usize, usize, Option<Contrib>)> = Vec::new(); // (start, end, command)
+        {
+            let mut off = 0usize;
+            for (ui, t) in pred.unit_text.iter().enumerate() {
+                if let Some(t) = t {
+                    if off > 0 {
+                        off += 1; // ';'
+                    }
+                    let c = pred.executed.iter().find(|(u, _, _)| *u == ui).map(|(_, c, _)| *c);
+                    bounds.push((off, off + t.len(), c));
+                    off += t.len();
+                }
+            }
+        }
+        let msgd = describe_msg(s);
+        for cap in 0..=r.len() + 1 {
+            if !crate::exec::array_cap_supported(cap) {
+                continue;
+            }
+            stats.bump("steps");
+            stats.fault("F5_capacity");
+            world.dev = snapshot.clone_state();
+            world.exec_read(0);
+            let mut sc = s.clone();
+            sc.fmt = FmtCfg::Array { cap };
+            let o = world.exec_send(&sc);
+            log_obs(stats, &o);
+            if !universal(&o, i, &mut out) {
+                if let Some(f) = out.last_mut() {
+                    f.detail = format!("{} [capacity {}]", f.detail, cap);
+                }
+                return out;
+            }
+            let n0 = out.len();
+            hook_discipline(&o, i, &mut out);
+            for f in out[n0..].iter_mut() {
+                f.detail = format!("{} [capacity {}]", f.detail, cap);
+            }
+            // where does exhaustion strike?
+            let lenc = (r.len() / 16) as u8;
+            let delta = (cap as i64 - r.len() as i64).clamp(-3, 1) as i8;
+            let mut at_kind = 0u8;
+            if cap < r.len() {
+                if cap == 0 {
+                    stats.probe("capacity_zero");
+                }
+                if cap + 1 == r.len() {
+                    stats.probe("exhaustion_at_terminator");
+                    at_kind = 1;
+                } else if let Some((st, en, c)) = bounds.iter().find(|(st, en, _)| cap < *en && cap + 1 >= *st) {
+                    if cap + 1 == *st && *st > 0 {
+                        stats.probe("exhaustion_in_unit_separator");
+                        at_kind = 2;
+                    } else {
+                        at_kind = 3;
+                        let inside = &r[*st..*en];
+                        let rel = cap.saturating_sub(*st);
+                        if let Some(h) = inside.iter().position(|b| *b == b'#') {
+                            if rel > h && rel <= h + 3 {
+                                stats.probe("exhaustion_inside_block_header");
+                                at_kind = 4;
+                            }
+                        }
+                        if *c == Some(Contrib::SystErrAll) && inside.get(rel) == Some(&b',') {
+                            stats.probe("exhaustion_between_error_items");
+                            at_kind = 5;
+                        }
+                    }
+                }
+            } else if cap == r.len() {
+                stats.probe("exact_fit");
+            }
+            stats.state(&[lenc, delta as u8, at_kind]);
+            if o.out.len() > cap {
+                out.push(Finding::new(
+                    "C11.capacity",
+                    "wrote_beyond_capacity",
+                    i,
+                    format!("message {}: buffer holds {} bytes with capacity {}", msgd, o.out.len(), cap),
+                ));
+            }
+            if cap >= r.len() {
+                match &o.result {
+                    Ok(()) => {
+                        if o.out != r {
+                            out.push(Finding::new(
+                                "C11.same_bytes",
+                                "fixed_buffer_response_differs_from_growable",
+                                i,
+                                format!("message {} capacity {}: {:?}, growable buffer gave {:?}", msgd, cap, B(o.out.clone()), B(r.clone())),
+                            ));
+                        }
+                    }
+                    Err(e) => out.push(Finding::new(
+                        "C11.fits",
+                        if cap == r.len() { "exact_fit_rejected" } else { "fitting_response_rejected" },
+                        i,
+                        format!("message {} capacity {} (response needs {}): failed with {:?}", msgd, cap, r.len(), e),
+                    )),
+                }
+            } else {
+                match &o.result {
+                    Ok(()) => out.push(Finding::new(
+                        "C11.overflow_is_error",
+                        "overflow_not_reported",
+                        i,
+                        format!("message {} capacity {} (response needs {}): returned Ok with {:?}", msgd, cap, r.len(), B(o.out.clone())),
+                    )),
+                    Err(e) if e.code != -225 => out.push(Finding::new(
+                        "C11.overflow_is_error",
+                        format!("overflow_reported_as_{}", e.code).replace('-', "m"),
+                        i,
+                        format!("message {} capacity {} (response needs {}): failed with {:?}, expected -225", msgd, cap, r.len(), e),
+                    )),
+                    Err(_) => {}
+                }
+            }
+            if alloc_free && o.allocs != 0 {
+                out.push(Finding::new(
+                    "C11.no_allocation",
+                    if o.result.is_err() { "allocation_on_overflowing_message" } else { "allocation_on_successful_message" },
+                    i,
+                    format!("{} heap allocation(s) ({} bytes) while executing {} with capacity {}", o.allocs, o.alloc_bytes, msgd, cap),
+                ));
+            }
+            if out.len() > 4 {
+                break;
+            }
+        }
+        if trace.run < 3 && stats.samples.is_empty() {
+            stats.samples.push(
+                serde_json::to_string(&serde_json::json!({"queue": trace.config.queue, "swept_message": msgd, "reference_response": format!("{:?}", B(r.clone())), "capacities": format!("0..={}", r.len() + 1)})).unwrap(),
+            );
+        }
+        out
+    }
 }
